@@ -345,6 +345,16 @@ func runCase(c *h.Case, e *env, kind, path string) {
 		joinGroupOf(k.bs, k.vs)
 		k.sameGrp = true
 	}
+	if (kind == "http" || kind == "tcpmux") && path != "partial-fail" && path != "name-race" && k.rng.Intn(3) == 0 {
+		// the bystander lives on the victim's host name: another location (http) / another route user (tcpmux)
+		k.bs.Domains, k.bs.SubDomain = []string{k.vs.Domains[0]}, ""
+		if kind == "http" {
+			k.vs.Locations, k.bs.Locations, k.bs.RouteUser = []string{"/a", "/b"}, []string{"/c"}, k.vs.RouteUser
+		} else {
+			k.vs.RouteUser, k.bs.RouteUser = "uv", "ub"
+		}
+		k.variant = append(k.variant, "shared-host")
+	}
 	k.variant = append(k.variant, fmt.Sprintf("pool%d", pool), fmt.Sprintf("grp%v", k.sameGrp),
 		fmt.Sprintf("d%d", len(k.vs.Domains)), fmt.Sprintf("l%d", len(k.vs.Locations)), fmt.Sprintf("sub%v", k.vs.SubDomain != ""),
 		fmt.Sprintf("u%v", k.vs.RouteUser != ""), fmt.Sprintf("e%vc%v", k.vs.Enc, k.vs.Comp), "lim"+k.vs.Limit)
@@ -751,7 +761,9 @@ func (k *kase) pathRelogin() {
 	if !k.mustRegister("right after re-login", W, k.vs, "reregistration-after-relogin-refused") {
 		return
 	}
-	k.expectServed("after re-login", k.vs, k.servers(W)...)
+	// the replaced connection belongs to the same client (same run id): work connections it still offers in answer
+	// to requests sent before the replacement are legitimately accepted for the run id, so V may answer as well
+	k.expectServed("after re-login", k.vs, append(k.servers(W), k.V)...)
 	if !k.V.p.WaitClosed(15 * time.Second) {
 		k.c.Violation(k.key("replaced-control-connection-left-open"), "replaced session's control connection is still open 15 s after the re-login was acknowledged")
 	}
@@ -878,6 +890,25 @@ func (k *kase) partialFail() {
 		defer unsquat()
 		defer rm()
 		if !k.mustRegister("setup", k.B, k.bs, "") {
+			return
+		}
+		// first: refused at the name check (the name is the bystander's); nothing may be charged to the session
+		for i := 0; i < 2; i++ {
+			taken := *k.vs
+			taken.Name = k.bs.Name
+			resp, err := k.V.register(&taken)
+			specByName.Store(k.bs.Name, k.bs)
+			if err != nil {
+				k.inconclusive("no reply to failing registration")
+				return
+			}
+			if resp.Error == "" {
+				k.c.Violation(k.key("conflicting-registration-accepted"), "registration of the taken name %s was accepted", taken.Name)
+				return
+			}
+			run.Count("partial_failures", 1)
+		}
+		if !k.checkLedger("after registrations refused for a taken name", k.withSib(k.liveB())) {
 			return
 		}
 		for i := 0; i < k.e.quota+1; i++ {
